@@ -32,7 +32,7 @@ type c08Tx struct {
 	Net     int64   `json:"net"`
 	Size    int     `json:"size"` // wanted serialized size (script padded); the real size is what is reported
 	High    bool    `json:"high,omitempty"`
-	NA      bool    `json:"na,omitempty"` // NotaryAssisted attribute (a main transaction co-signed by the Notary contract)
+	NA      bool    `json:"na,omitempty"`    // NotaryAssisted attribute (a main transaction co-signed by the Notary contract)
 	Confl   []int   `json:"confl,omitempty"` // universe indices (< own index) or >= 1000: a foreign hash
 	Oracle  *uint64 `json:"oracle,omitempty"`
 }
@@ -60,11 +60,11 @@ type c08Input struct {
 }
 
 type c08Step struct {
-	Op   string `json:"op"`
-	Res  string `json:"res"`
-	Ids  []int  `json:"ids"`
-	Keys []int  `json:"keys"`
-	Resent []int `json:"resent,omitempty"`
+	Op     string `json:"op"`
+	Res    string `json:"res"`
+	Ids    []int  `json:"ids"`
+	Keys   []int  `json:"keys"`
+	Resent []int  `json:"resent,omitempty"`
 }
 
 type c08Impl struct {
@@ -92,6 +92,7 @@ type c08Feer struct {
 }
 
 func (f *c08Feer) FeePerByte() int64 { return f.fpb }
+
 // as Blockchain.GetUtilityTokenBalance: the deposit of the secondary account when the primary is the Notary
 // contract, otherwise the GAS balance of the primary whatever the secondary is
 func (f *c08Feer) GetUtilityTokenBalance(p, s util.Uint160) *big.Int {
@@ -319,296 +320,348 @@ func c08EqInts(a, b []int) bool {
 	return true
 }
 
-// c08Run executes one sequence and records the case; returns the branch events seen.
+// c08Sess: one pool with what the harness knows about it; do() runs one operation, observes the pool through the
+// public API, extends the Coq steps and evaluates the property text directly (diag = first violation).
+type c08Sess struct {
+	in       *c08Input
+	txs      []*transaction.Transaction
+	sizes    []int
+	byHash   map[util.Uint256]int
+	feer     *c08Feer
+	bal      map[[2]int]int64
+	mp       *mempool.Pool
+	impl     c08Impl
+	coqSteps []string
+	events   map[string]bool
+	prev     []int
+	prevKeys []int
+
+	threshold uint32
+	resentMu  sync.Mutex
+	resent    []int
+	resentNow []int
+	stamp     map[int]uint32
+	oomOracle map[uint64]bool // oracle ids whose latest response was refused with ErrOOM and none pooled since
+	diag      string
+}
+
+func (s *c08Sess) setBal(b []c08Bal) {
+	s.bal = map[[2]int]int64{}
+	for _, x := range b {
+		s.bal[[2]int{x.P, x.S}] = x.V
+	}
+}
+
+func c08NewSess(in *c08Input, metrics func(int)) (*c08Sess, error) {
+	txs, err := c08Build(in.Txs)
+	if err != nil {
+		return nil, err
+	}
+	s := &c08Sess{in: in, txs: txs, sizes: make([]int, len(txs)), byHash: map[util.Uint256]int{}, feer: &c08Feer{},
+		events: map[string]bool{}, prev: []int{}, prevKeys: []int{}, stamp: map[int]uint32{}, oomOracle: map[uint64]bool{}}
+	for i, t := range txs {
+		s.sizes[i] = t.Size()
+		s.byHash[t.Hash()] = i
+	}
+	s.feer.set(in.Bal)
+	s.setBal(in.Bal)
+	s.mp = mempool.New(in.Cap, false, metrics)
+	s.impl = c08Impl{Sizes: s.sizes}
+	return s, nil
+}
+
+// observe reads the pool through the public API: the listed transactions and the universe ids ContainsKey holds for.
+func (s *c08Sess) observe() (ids, keys []int, unknown bool) {
+	ids, keys = []int{}, []int{}
+	for _, t := range s.mp.GetVerifiedTransactions() {
+		i, ok := s.byHash[t.Hash()]
+		if !ok {
+			unknown = true
+		}
+		ids = append(ids, i)
+	}
+	for i, t := range s.txs {
+		if s.mp.ContainsKey(t.Hash()) {
+			keys = append(keys, i)
+		}
+	}
+	return
+}
+
+// do runs one operation; false = the sequence ends here (violation or panic).
+func (s *c08Sess) do(op c08Op) bool {
+	in, txs, mp, feer := s.in, s.txs, s.mp, s.feer
+	var res, coqOp string
+	valid := op.I >= 0 && op.I < len(txs)
+	var pan string
+	switch op.Op {
+	case "add":
+		if !valid {
+			return true
+		}
+		coqOp = fmt.Sprintf("HAdd %d%%nat", op.I)
+		pan = catch(func() { res = c08ErrName(mp.Add(txs[op.I], feer, op.I)) })
+	case "remove":
+		var h util.Uint256
+		if op.I >= 1000 {
+			h = c08ForeignHash(op.I)
+		} else if valid {
+			h = txs[op.I].Hash()
+		} else {
+			return true
+		}
+		coqOp = fmt.Sprintf("HRemove %d", op.I)
+		pan = catch(func() { mp.Remove(h); res = "ok" })
+	case "verify":
+		if !valid {
+			return true
+		}
+		coqOp = fmt.Sprintf("HVerify %d%%nat", op.I)
+		pan = catch(func() { res = fmt.Sprint(mp.Verify(txs[op.I], feer)) })
+	case "has":
+		if !valid {
+			return true
+		}
+		coqOp = fmt.Sprintf("HHas %d%%nat", op.I)
+		pan = catch(func() { res = fmt.Sprint(mp.HasConflicts(txs[op.I], feer)) })
+	case "stale":
+		stale := map[util.Uint256]bool{}
+		var sl []int
+		for _, x := range op.Stale {
+			if x >= 0 && x < len(txs) {
+				stale[txs[x].Hash()] = true
+				sl = append(sl, x)
+			}
+		}
+		feer.set(op.Bal)
+		feer.fpb = op.Fpb
+		s.setBal(op.Bal)
+		if op.H > feer.height {
+			feer.height = op.H
+		}
+		coqOp = fmt.Sprintf("HStale %s %s %d %d", c08Ints(sl), c08CoqBal(op.Bal), op.Fpb, feer.height)
+		// how many items the documented rule hands to the resend callback (to know how long to wait for it)
+		expect := 0
+		for _, t := range mp.GetVerifiedTransactions() {
+			i := s.byHash[t.Hash()]
+			if !stale[t.Hash()] && s.threshold != 0 {
+				d := feer.height - s.stamp[i]
+				if d%s.threshold == 0 && bits.OnesCount32(d/s.threshold) == 1 {
+					expect++
+				}
+			}
+		}
+		s.resentMu.Lock()
+		s.resent = nil
+		s.resentMu.Unlock()
+		pan = catch(func() {
+			mp.RemoveStale(func(t *transaction.Transaction) bool { return !stale[t.Hash()] }, feer)
+			res = "resent"
+		})
+		// the callback runs on its own goroutine: wait for what is expected (some of it may have been dropped for
+		// balance reasons and never come), then a little longer for anything beyond it
+		deadline := time.Now().Add(20 * time.Millisecond)
+		for expect > 0 && time.Now().Before(deadline) {
+			s.resentMu.Lock()
+			n := len(s.resent)
+			s.resentMu.Unlock()
+			if n >= expect {
+				break
+			}
+			time.Sleep(50 * time.Microsecond)
+		}
+		time.Sleep(150 * time.Microsecond)
+		s.resentMu.Lock()
+		s.resentNow = append([]int{}, s.resent...)
+		s.resentMu.Unlock()
+	case "resend":
+		s.threshold = uint32(op.I % 4)
+		if op.I < 0 {
+			s.threshold = 0
+		}
+		coqOp = fmt.Sprintf("HSetResend %d", s.threshold)
+		pan = catch(func() {
+			mp.SetResendThreshold(s.threshold, func(t *transaction.Transaction, _ any) {
+				s.resentMu.Lock()
+				s.resent = append(s.resent, s.byHash[t.Hash()])
+				s.resentMu.Unlock()
+			})
+			res = "ok"
+		})
+	default:
+		return true
+	}
+	if pan != "" {
+		res = "panic"
+		s.impl.Steps = append(s.impl.Steps, c08Step{Op: coqOp, Res: res})
+		s.coqSteps = append(s.coqSteps, fmt.Sprintf("(%s, HPanic, [], [])", coqOp))
+		s.diag = fmt.Sprintf("panic in %s: %s", op.Op, pan)
+		if op.Op == "add" && in.Txs[op.I].Oracle != nil {
+			s.diag = fmt.Sprintf("panic in Add of an OracleResponse transaction (id %d): %s", *in.Txs[op.I].Oracle, pan)
+			if s.oomOracle[*in.Txs[op.I].Oracle] {
+				s.diag += " [an earlier response with this id was refused with ErrOOM]"
+			}
+		}
+		return false // the pool's mutex is still held: nothing more can be observed
+	}
+	// observe through the public API
+	ids, keys, unknown := s.observe()
+	prev, prevKeys := s.prev, s.prevKeys
+	s.impl.Steps = append(s.impl.Steps, c08Step{Op: coqOp, Res: res, Ids: ids, Keys: keys, Resent: s.resentNow})
+	coqR := c08CoqRes(res)
+	if res == "resent" {
+		coqR = "HResent " + c08Ints(s.resentNow)
+		if len(s.resentNow) > 0 {
+			s.events["resent"] = true
+		}
+	}
+	s.coqSteps = append(s.coqSteps, fmt.Sprintf("(%s, %s, %s, %s)", coqOp, coqR, c08Ints(ids), c08Ints(keys)))
+	// direct evaluation of the property text on the observable projection
+	diag := ""
+	if op.Op == "stale" {
+		var want []int
+		for _, x := range ids {
+			if s.threshold != 0 {
+				d := feer.height - s.stamp[x]
+				if d%s.threshold == 0 && bits.OnesCount32(d/s.threshold) == 1 {
+					want = append(want, x)
+				}
+			}
+		}
+		if !c08EqInts(want, s.resentNow) && len(want)+len(s.resentNow) > 0 {
+			diag = fmt.Sprintf("resend: RemoveStale at height %d with threshold %d handed %v to the callback, the kept items that are due are %v", feer.height, s.threshold, s.resentNow, want)
+		}
+	} else {
+		s.resentNow = nil
+	}
+	switch {
+	case diag != "":
+	case unknown:
+		diag = "the pool lists a transaction that was never added"
+	case strings.HasPrefix(res, "unknown:"):
+		diag = "Add returned an error outside its documented classes: " + res
+	case mp.Count() != len(ids):
+		diag = fmt.Sprintf("Count() = %d but %d transactions are listed", mp.Count(), len(ids))
+	}
+	if diag == "" {
+		var it []int
+		mp.IterateVerifiedTransactions(func(t *transaction.Transaction, data any) bool {
+			it = append(it, s.byHash[t.Hash()])
+			if d, ok := data.(int); !ok || d != s.byHash[t.Hash()] {
+				diag = fmt.Sprintf("IterateVerifiedTransactions: transaction %d carries data %v", s.byHash[t.Hash()], data)
+			}
+			return true
+		})
+		if diag == "" && !c08EqInts(it, ids) && len(it)+len(ids) > 0 {
+			diag = "IterateVerifiedTransactions and GetVerifiedTransactions disagree"
+		}
+	}
+	if diag == "" {
+		sk := append([]int{}, ids...)
+		sort.Ints(sk)
+		if !c08EqInts(sk, keys) {
+			diag = fmt.Sprintf("slice and map disagree: listed %v, ContainsKey holds for %v", ids, keys)
+		}
+	}
+	if diag == "" {
+		for i, t := range txs {
+			got, ok := mp.TryGetValue(t.Hash())
+			inPool := mp.ContainsKey(t.Hash())
+			if ok != inPool || ok && got != t {
+				diag = fmt.Sprintf("TryGetValue(%d) disagrees with ContainsKey", i)
+				break
+			}
+			d, ok2 := mp.TryGetData(t.Hash())
+			if ok2 != inPool || ok2 && d != any(i) {
+				diag = fmt.Sprintf("TryGetData(%d) = (%v, %v) while ContainsKey = %v", i, d, ok2, inPool)
+				break
+			}
+		}
+	}
+	if diag == "" {
+		diag = c08Inv(in, s.sizes, s.bal, ids)
+		if strings.HasPrefix(diag, "solvency:") && strings.Contains(diag, "notary-sponsored") && op.Op == "add" && res == "ok" {
+			// which input class: did the newcomer replace, through Conflicts, a transaction sponsored by another depositor?
+			t := in.Txs[op.I]
+			for _, x := range prev {
+				gone := true
+				for _, y := range ids {
+					if x == y {
+						gone = false
+					}
+				}
+				e := in.Txs[x]
+				if gone && (c08Names(in.Txs, op.I, x) || c08Names(in.Txs, x, op.I)) && t.Signers[0] == 1 && e.Signers[0] == 1 && t.Signers[1] != e.Signers[1] {
+					diag += " [after Add of a Notary-sponsored transaction that replaced, through Conflicts, one sponsored by another depositor]"
+					break
+				}
+			}
+		}
+	}
+	if diag == "" && op.Op == "add" && res != "ok" && (!c08EqInts(ids, prev) || !c08EqInts(keys, prevKeys)) {
+		diag = fmt.Sprintf("a failed Add (%s) changed the pool: %v -> %v", res, prev, ids)
+	}
+	// branch events
+	if op.Op == "add" && res == "ok" {
+		s.stamp[op.I] = feer.height
+	}
+	if op.Op == "add" {
+		s.events[res] = true
+		if o := in.Txs[op.I].Oracle; o != nil {
+			if res == "EOOM" {
+				s.oomOracle[*o] = true
+			} else if res == "ok" {
+				delete(s.oomOracle, *o) // a pooled response legitimately owns the id again
+			}
+		}
+		if res == "ok" && len(ids) <= len(prev) {
+			s.events["replaced"] = true
+			if len(prev) == in.Cap {
+				s.events["evicted"] = true
+			}
+		}
+	}
+	if op.Op == "stale" && len(ids) < len(prev) {
+		s.events["stale-dropped"] = true
+	}
+	if diag != "" {
+		s.diag = diag
+		return false
+	}
+	s.prev, s.prevKeys = ids, keys
+	return true
+}
+
+// universe as Coq terms (the real sizes)
+func (s *c08Sess) coqUniverse() string {
+	var utxs []string
+	for i, d := range s.in.Txs {
+		sg := c08Ints(d.Signers)
+		cf := c08Ints(d.Confl)
+		or := "None"
+		if d.Oracle != nil {
+			or = fmt.Sprintf("(Some %d)", *d.Oracle)
+		}
+		utxs = append(utxs, fmt.Sprintf("mkTx %d %s %d %d %d %s %s %s", i, sg, d.Sys, d.Net, s.sizes[i], coqBool(d.High), cf, or))
+	}
+	return coqList(utxs)
+}
+
+// c08Run executes one sequence and records the case.
 func c08Run(co *caseOut, in c08Input) {
 	kind := "seq"
-	txs, err := c08Build(in.Txs)
+	s, err := c08NewSess(&in, nil)
 	if err != nil {
 		co.add(kind, "malformed", false, in, err.Error(), "CSeq 0%nat [] [] []")
 		return
 	}
-	sizes := make([]int, len(txs))
-	byHash := map[util.Uint256]int{}
-	for i, t := range txs {
-		sizes[i] = t.Size()
-		byHash[t.Hash()] = i
-	}
-	feer := &c08Feer{}
-	feer.set(in.Bal)
-	bal := map[[2]int]int64{}
-	setBal := func(b []c08Bal) {
-		bal = map[[2]int]int64{}
-		for _, x := range b {
-			bal[[2]int{x.P, x.S}] = x.V
-		}
-	}
-	setBal(in.Bal)
-	mp := mempool.New(in.Cap, false, nil)
-	impl := c08Impl{Sizes: sizes}
-	var coqSteps []string
-	events := map[string]bool{}
-	prev, prevKeys := []int{}, []int{}
-	var (
-		threshold uint32
-		resentMu  sync.Mutex
-		resent    []int
-		resentNow []int
-	)
-	stamp := map[int]uint32{}
-	oomOracle := map[uint64]bool{} // oracle ids whose latest response was refused with ErrOOM and none pooled since
-	diag := ""
 	for _, op := range in.Ops {
-		var res, coqOp string
-		valid := op.I >= 0 && op.I < len(txs)
-		var pan string
-		switch op.Op {
-		case "add":
-			if !valid {
-				continue
-			}
-			coqOp = fmt.Sprintf("HAdd %d%%nat", op.I)
-			pan = catch(func() { res = c08ErrName(mp.Add(txs[op.I], feer, op.I)) })
-		case "remove":
-			var h util.Uint256
-			if op.I >= 1000 {
-				h = c08ForeignHash(op.I)
-			} else if valid {
-				h = txs[op.I].Hash()
-			} else {
-				continue
-			}
-			coqOp = fmt.Sprintf("HRemove %d", op.I)
-			pan = catch(func() { mp.Remove(h); res = "ok" })
-		case "verify":
-			if !valid {
-				continue
-			}
-			coqOp = fmt.Sprintf("HVerify %d%%nat", op.I)
-			pan = catch(func() { res = fmt.Sprint(mp.Verify(txs[op.I], feer)) })
-		case "has":
-			if !valid {
-				continue
-			}
-			coqOp = fmt.Sprintf("HHas %d%%nat", op.I)
-			pan = catch(func() { res = fmt.Sprint(mp.HasConflicts(txs[op.I], feer)) })
-		case "stale":
-			stale := map[util.Uint256]bool{}
-			var sl []int
-			for _, x := range op.Stale {
-				if x >= 0 && x < len(txs) {
-					stale[txs[x].Hash()] = true
-					sl = append(sl, x)
-				}
-			}
-			feer.set(op.Bal)
-			feer.fpb = op.Fpb
-			setBal(op.Bal)
-			if op.H > feer.height {
-				feer.height = op.H
-			}
-			coqOp = fmt.Sprintf("HStale %s %s %d %d", c08Ints(sl), c08CoqBal(op.Bal), op.Fpb, feer.height)
-			// how many items the documented rule hands to the resend callback (to know how long to wait for it)
-			expect := 0
-			for _, t := range mp.GetVerifiedTransactions() {
-				i := byHash[t.Hash()]
-				if !stale[t.Hash()] && threshold != 0 {
-					d := feer.height - stamp[i]
-					if d%threshold == 0 && bits.OnesCount32(d/threshold) == 1 {
-						expect++
-					}
-				}
-			}
-			resentMu.Lock()
-			resent = nil
-			resentMu.Unlock()
-			pan = catch(func() {
-				mp.RemoveStale(func(t *transaction.Transaction) bool { return !stale[t.Hash()] }, feer)
-				res = "resent"
-			})
-			// the callback runs on its own goroutine: wait for what is expected (some of it may have been dropped for
-			// balance reasons and never come), then a little longer for anything beyond it
-			deadline := time.Now().Add(20 * time.Millisecond)
-			for expect > 0 && time.Now().Before(deadline) {
-				resentMu.Lock()
-				n := len(resent)
-				resentMu.Unlock()
-				if n >= expect {
-					break
-				}
-				time.Sleep(50 * time.Microsecond)
-			}
-			time.Sleep(150 * time.Microsecond)
-			resentMu.Lock()
-			resentNow = append([]int{}, resent...)
-			resentMu.Unlock()
-		case "resend":
-			threshold = uint32(op.I % 4)
-			if op.I < 0 {
-				threshold = 0
-			}
-			coqOp = fmt.Sprintf("HSetResend %d", threshold)
-			pan = catch(func() {
-				mp.SetResendThreshold(threshold, func(t *transaction.Transaction, _ any) {
-					resentMu.Lock()
-					resent = append(resent, byHash[t.Hash()])
-					resentMu.Unlock()
-				})
-				res = "ok"
-			})
-		default:
-			continue
-		}
-		if pan != "" {
-			res = "panic"
-			impl.Steps = append(impl.Steps, c08Step{Op: coqOp, Res: res})
-			coqSteps = append(coqSteps, fmt.Sprintf("(%s, HPanic, [], [])", coqOp))
-			diag = fmt.Sprintf("panic in %s: %s", op.Op, pan)
-			if op.Op == "add" && in.Txs[op.I].Oracle != nil {
-				diag = fmt.Sprintf("panic in Add of an OracleResponse transaction (id %d): %s", *in.Txs[op.I].Oracle, pan)
-				if oomOracle[*in.Txs[op.I].Oracle] {
-					diag += " [an earlier response with this id was refused with ErrOOM]"
-				}
-			}
-			break // the pool's mutex is still held: nothing more can be observed
-		}
-		// observe through the public API
-		var ids, keys []int
-		ids, keys = []int{}, []int{}
-		unknown := false
-		for _, t := range mp.GetVerifiedTransactions() {
-			i, ok := byHash[t.Hash()]
-			if !ok {
-				unknown = true
-			}
-			ids = append(ids, i)
-		}
-		for i, t := range txs {
-			if mp.ContainsKey(t.Hash()) {
-				keys = append(keys, i)
-			}
-		}
-		impl.Steps = append(impl.Steps, c08Step{Op: coqOp, Res: res, Ids: ids, Keys: keys, Resent: resentNow})
-		coqR := c08CoqRes(res)
-		if res == "resent" {
-			coqR = "HResent " + c08Ints(resentNow)
-			if len(resentNow) > 0 {
-				events["resent"] = true
-			}
-		}
-		coqSteps = append(coqSteps, fmt.Sprintf("(%s, %s, %s, %s)", coqOp, coqR, c08Ints(ids), c08Ints(keys)))
-		// direct evaluation of the property text on the observable projection
-		if op.Op == "stale" {
-			var want []int
-			for _, x := range ids {
-				if threshold != 0 {
-					d := feer.height - stamp[x]
-					if d%threshold == 0 && bits.OnesCount32(d/threshold) == 1 {
-						want = append(want, x)
-					}
-				}
-			}
-			if !c08EqInts(want, resentNow) && len(want)+len(resentNow) > 0 {
-				diag = fmt.Sprintf("resend: RemoveStale at height %d with threshold %d handed %v to the callback, the kept items that are due are %v", feer.height, threshold, resentNow, want)
-			}
-		} else {
-			resentNow = nil
-		}
-		switch {
-		case diag != "":
-		case unknown:
-			diag = "the pool lists a transaction that was never added"
-		case strings.HasPrefix(res, "unknown:"):
-			diag = "Add returned an error outside its documented classes: " + res
-		case mp.Count() != len(ids):
-			diag = fmt.Sprintf("Count() = %d but %d transactions are listed", mp.Count(), len(ids))
-		}
-		if diag == "" {
-			var it []int
-			mp.IterateVerifiedTransactions(func(t *transaction.Transaction, data any) bool {
-				it = append(it, byHash[t.Hash()])
-				if d, ok := data.(int); !ok || d != byHash[t.Hash()] {
-					diag = fmt.Sprintf("IterateVerifiedTransactions: transaction %d carries data %v", byHash[t.Hash()], data)
-				}
-				return true
-			})
-			if diag == "" && !c08EqInts(it, ids) && len(it)+len(ids) > 0 {
-				diag = "IterateVerifiedTransactions and GetVerifiedTransactions disagree"
-			}
-		}
-		if diag == "" {
-			sk := append([]int{}, ids...)
-			sort.Ints(sk)
-			if !c08EqInts(sk, keys) {
-				diag = fmt.Sprintf("slice and map disagree: listed %v, ContainsKey holds for %v", ids, keys)
-			}
-		}
-		if diag == "" {
-			for i, t := range txs {
-				got, ok := mp.TryGetValue(t.Hash())
-				inPool := mp.ContainsKey(t.Hash())
-				if ok != inPool || ok && got != t {
-					diag = fmt.Sprintf("TryGetValue(%d) disagrees with ContainsKey", i)
-					break
-				}
-				d, ok2 := mp.TryGetData(t.Hash())
-				if ok2 != inPool || ok2 && d != any(i) {
-					diag = fmt.Sprintf("TryGetData(%d) = (%v, %v) while ContainsKey = %v", i, d, ok2, inPool)
-					break
-				}
-			}
-		}
-		if diag == "" {
-			diag = c08Inv(&in, sizes, bal, ids)
-			if strings.HasPrefix(diag, "solvency:") && strings.Contains(diag, "notary-sponsored") && op.Op == "add" && res == "ok" {
-				// which input class: did the newcomer replace, through Conflicts, a transaction sponsored by another depositor?
-				t := in.Txs[op.I]
-				for _, x := range prev {
-					gone := true
-					for _, y := range ids {
-						if x == y {
-							gone = false
-						}
-					}
-					e := in.Txs[x]
-					if gone && (c08Names(in.Txs, op.I, x) || c08Names(in.Txs, x, op.I)) && t.Signers[0] == 1 && e.Signers[0] == 1 && t.Signers[1] != e.Signers[1] {
-						diag += " [after Add of a Notary-sponsored transaction that replaced, through Conflicts, one sponsored by another depositor]"
-						break
-					}
-				}
-			}
-		}
-		if diag == "" && op.Op == "add" && res != "ok" && (!c08EqInts(ids, prev) || !c08EqInts(keys, prevKeys)) {
-			diag = fmt.Sprintf("a failed Add (%s) changed the pool: %v -> %v", res, prev, ids)
-		}
-		// branch events
-		if op.Op == "add" && res == "ok" {
-			stamp[op.I] = feer.height
-		}
-		if op.Op == "add" {
-			events[res] = true
-			if o := in.Txs[op.I].Oracle; o != nil {
-				if res == "EOOM" {
-					oomOracle[*o] = true
-				} else if res == "ok" {
-					delete(oomOracle, *o) // a pooled response legitimately owns the id again
-				}
-			}
-			if res == "ok" && len(ids) <= len(prev) {
-				events["replaced"] = true
-				if len(prev) == in.Cap {
-					events["evicted"] = true
-				}
-			}
-		}
-		if op.Op == "stale" && len(ids) < len(prev) {
-			events["stale-dropped"] = true
-		}
-		if diag != "" {
+		if !s.do(op) {
 			break
 		}
-		prev, prevKeys = ids, keys
 	}
-	impl.Diag = diag
+	diag, events := s.diag, s.events
+	s.impl.Diag = diag
 	var evs []string
 	for e := range events {
 		if e != "ok" {
@@ -633,20 +686,10 @@ func c08Run(co *caseOut, in c08Input) {
 		}
 		c08EventCount[e]++
 	}
-	var utxs []string
-	for i, d := range in.Txs {
-		sg := c08Ints(d.Signers)
-		cf := c08Ints(d.Confl)
-		or := "None"
-		if d.Oracle != nil {
-			or = fmt.Sprintf("(Some %d)", *d.Oracle)
-		}
-		utxs = append(utxs, fmt.Sprintf("mkTx %d %s %d %d %d %s %s %s", i, sg, d.Sys, d.Net, sizes[i], coqBool(d.High), cf, or))
-	}
-	term := fmt.Sprintf("CSeq %d%%nat %s %s %s", in.Cap, coqList(utxs), c08CoqBal(in.Bal), coqList(coqSteps))
-	co.add(kind, tag, nontrivial, in, impl, term)
+	term := fmt.Sprintf("CSeq %d%%nat %s %s %s", in.Cap, s.coqUniverse(), c08CoqBal(in.Bal), coqList(s.coqSteps))
+	co.add(kind, tag, nontrivial, in, s.impl, term)
 	if diag != "" {
-		co.violation(kind, diag, in, impl)
+		co.violation(kind, diag, in, s.impl)
 	}
 }
 
@@ -853,7 +896,7 @@ func runC08(args []string) error {
 	co := newCaseOut(cf.out, "Harness.C08", "N",
 		"operation sequences (Add/Remove/Verify/HasConflicts/RemoveStale at rising block heights/SetResendThreshold 0..3 with a recording callback) on mempool.Pool with capacity 1..6 over 5..18 transactions with "+
 			"few distinct fees and sizes, ordinary and Notary-sponsored senders, co-signers, Conflicts against earlier transactions, two oracle ids, "+
-			"balances that bind; a sequence is non-trivial when some Add was refused for a reason other than ErrDup, or replaced/evicted another "+
+			"balances that bind; conc: after a sequential prefix, 2-3 operations (the same transaction twice, transactions in conflict or of one payer, Add against Remove, Add against RemoveStale with lowered balances, Adds for the last slots, Verify/HasConflicts together) issued by one goroutine each under forced interleavings (every start order behind the pool's write lock, the read lock, readers kept inside together; a reader queued behind every write region); a sequence is non-trivial when some Add was refused for a reason other than ErrDup, or replaced/evicted another "+
 			"transaction, or RemoveStale dropped one; distinct by Coq term")
 	co.shard = 40
 	if cf.replay != "" {
@@ -862,6 +905,22 @@ func runC08(args []string) error {
 			return err
 		}
 		for _, c := range cases {
+			var k struct {
+				Kind string `json:"kind"`
+			}
+			if err := json.Unmarshal(c, &k); err != nil {
+				return err
+			}
+			if k.Kind == "conc" {
+				var x struct {
+					Input c08ConcIn `json:"input"`
+				}
+				if err := json.Unmarshal(c, &x); err != nil {
+					return err
+				}
+				c08RunConc(co, x.Input)
+				continue
+			}
 			var x struct {
 				Kind  string   `json:"kind"`
 				Input c08Input `json:"input"`
@@ -876,6 +935,13 @@ func runC08(args []string) error {
 	r := newRng(cf.seed*0x2545F491 + 8) // adjacent seeds of newRng are the same stream shifted by one draw: spread them
 	for i := 0; i < cf.n; i++ {
 		c08Run(co, c08Gen(r, cf.tier == "thorough"))
+	}
+	// the pool under concurrent callers: forced interleavings of 2-3 operations after a sequential prefix
+	rc := newRng(cf.seed*0x9E3779B1 + 808)
+	for i := 0; i < cf.n/10; i++ {
+		for _, in := range c08GenConc(rc) {
+			c08RunConc(co, in)
+		}
 	}
 	co.extra["x_events"] = c08EventCount
 	return co.finish()
